@@ -89,7 +89,7 @@ def run_cases(ck, res, n_cases, n_interval):
                 goals.append(enga.interval_goal(f'{kind}#{ci}', term, venv, pv, {'N': net_p, 'f': f_p, 'g': g_p}, u[i], scale,
                                                 gen=('Gen_C11', kind, 'term'), names=res[kind]['names']))
         else:
-            W = r.choice([1, 2, 3, 5, 9, 25])
+            W = r.choice([1, 2, 3, 4, 5, 9, 25])
             cols = [Probe(1, r, nterms=2, kinds=nk) for _ in range(W)]
             net = make_net(cols)
             shape = r.choice(['vec', 'row', 'scalar'])
@@ -109,6 +109,11 @@ def run_cases(ck, res, n_cases, n_interval):
             rs = [r0] + ([r1] if kind == 'basis2' else []) + [dy(r, 0, 8, 4) for _ in range(2)]
             if kind == 'inf_basis':
                 rs += [r0 + 12.0 / min(k, 2.0), r0 + 24.0 / min(k, 2.0)]
+            # the coincidence "number of rows == number of coefficients" (a flat per-column vector must never be read as a
+            # per-row vector): pad with interior rows until n == W in most of the vector-shaped cases
+            nb = 2 if kind == 'basis2' else 1
+            if shape == 'vec' and W > len(rs) and r.random() < 0.7:
+                rs = rs[:nb] + [dy(r, 0, 8, 4) for _ in range(W - len(rs))] + rs[nb:]
             out = cond.enforce(net, enga.col(torch, rs)).detach()
             inp = {'kind': kind, 'width': W, 'shape': shape, 'params': {'r_0': r0, 'r_1': r1, 'order': k}, 'R_0': R0v, 'R_1': R1v,
                    'net': [c.describe() for c in cols], 'r': rs}
